@@ -97,7 +97,7 @@ pub fn run(cx: &mut Ctx) {
                 for (o, k) in [(32usize, 0usize), (32, 32), (64, 64), (16, 16), (ol, kl), (ol, 0)] {
                     let key = if k == 0 { None } else { Some(&key64[..k]) };
                     let want = na::generichash(o, &input, key).unwrap();
-                    let mut out = vec![0u8; o];
+                    let mut out = stale(o);
                     let c = || json!({"op":"crypto_generichash","outlen":o,"keylen":k,"case":base});
                     if let Some(r) = call(cx, "C07|crypto_generichash", "crypto_generichash", c, || crypto_generichash(&mut out, &input, key)) {
                         if r.is_err() {
@@ -114,7 +114,7 @@ pub fn run(cx: &mut Ctx) {
                 // SHA-512
                 {
                     let want = na::sha512(&input);
-                    let mut out = [0u8; 64];
+                    let mut out = stale_arr::<64>();
                     let c = || json!({"op":"crypto_hash_sha512","case":base});
                     if call(cx, "C07|crypto_hash_sha512", "crypto_hash_sha512", c, || crypto_hash_sha512(&mut out, &input)).is_some() {
                         expect_eq(cx, "C07|crypto_hash_sha512|mismatch_vs_libsodium", &out, &want, c);
@@ -130,7 +130,7 @@ pub fn run(cx: &mut Ctx) {
                 // HMAC-SHA-512-256
                 {
                     let want = na::auth(&input, &key32);
-                    let mut out = [0u8; 32];
+                    let mut out = stale_arr::<32>();
                     let c = || json!({"op":"crypto_auth","case":base});
                     if call(cx, "C07|crypto_auth", "crypto_auth", c, || crypto_auth(&mut out, &input, &key32)).is_some() {
                         expect_eq(cx, "C07|crypto_auth|mismatch_vs_libsodium", &out, &want, c);
@@ -187,7 +187,7 @@ pub fn run(cx: &mut Ctx) {
                 // SipHash-2-4
                 {
                     let want = na::shorthash(&input, &key16);
-                    let mut out = [0u8; 8];
+                    let mut out = stale_arr::<8>();
                     let c = || json!({"op":"crypto_shorthash","case":base});
                     if call(cx, "C07|crypto_shorthash", "crypto_shorthash", c, || crypto_shorthash(&mut out, &input, &key16)).is_some() {
                         expect_eq(cx, "C07|crypto_shorthash|mismatch_vs_libsodium", &out, &want, c);
@@ -227,7 +227,7 @@ pub fn run(cx: &mut Ctx) {
             let c = || json!({"family":"long_input","len":len,"class":class,"key":hx(&key64)});
             for (o, k) in [(32usize, 0usize), (64, 64)] {
                 let key = if k == 0 { None } else { Some(&key64[..k]) };
-                let mut out = vec![0u8; o];
+                let mut out = stale(o);
                 if let Some(Ok(())) = call(cx, "C07|crypto_generichash", "crypto_generichash", c, || crypto_generichash(&mut out, &input, key)) {
                     expect_eq(cx, "C07|crypto_generichash|mismatch_vs_libsodium", &out, &na::generichash(o, &input, key).unwrap(), c);
                     if len <= 65537 {
@@ -235,22 +235,22 @@ pub fn run(cx: &mut Ctx) {
                     }
                 }
             }
-            let mut d = [0u8; 64];
+            let mut d = stale_arr::<64>();
             if call(cx, "C07|crypto_hash_sha512", "crypto_hash_sha512", c, || crypto_hash_sha512(&mut d, &input)).is_some() {
                 expect_eq(cx, "C07|crypto_hash_sha512|mismatch_vs_libsodium", &d, &na::sha512(&input), c);
             }
-            let mut a = [0u8; 32];
+            let mut a = stale_arr::<32>();
             if call(cx, "C07|crypto_auth", "crypto_auth", c, || crypto_auth(&mut a, &input, &key32)).is_some() {
                 expect_eq(cx, "C07|crypto_auth|mismatch_vs_libsodium", &a, &na::auth(&input, &key32), c);
             }
-            let mut t = [0u8; 16];
+            let mut t = stale_arr::<16>();
             if call(cx, "C07|crypto_onetimeauth", "crypto_onetimeauth", c, || crypto_onetimeauth(&mut t, &input, &key32)).is_some() {
                 expect_eq(cx, "C07|crypto_onetimeauth|mismatch_vs_libsodium", &t, &na::onetimeauth(&input, &key32), c);
                 if len <= 65537 {
                     cx.io("poly1305", json!({"in":hx(&input),"key":hx(&key32),"out":hx(&t),"family":"long"}));
                 }
             }
-            let mut s8 = [0u8; 8];
+            let mut s8 = stale_arr::<8>();
             let k16: [u8; 16] = key64[..16].try_into().unwrap();
             if call(cx, "C07|crypto_shorthash", "crypto_shorthash", c, || crypto_shorthash(&mut s8, &input, &k16)).is_some() {
                 expect_eq(cx, "C07|crypto_shorthash|mismatch_vs_libsodium", &s8, &na::shorthash(&input, &k16), c);
@@ -272,7 +272,7 @@ pub fn run(cx: &mut Ctx) {
                 let input = rng.bytes(len);
                 let key = if keylen == 0 { None } else { Some(&key64[..keylen]) };
                 let want = na::generichash(outlen, &input, key).unwrap();
-                let mut out = vec![0u8; outlen];
+                let mut out = stale(outlen);
                 let c = || json!({"op":"crypto_generichash","outlen":outlen,"keylen":keylen,"len":len,"input":hx(&input),"key":hx(&key64[..keylen])});
                 cx.key(&format!("pair {} {} {}", outlen, keylen, len));
                 if let Some(r) = call(cx, "C07|crypto_generichash", "crypto_generichash", c, || crypto_generichash(&mut out, &input, key)) {
@@ -283,7 +283,7 @@ pub fn run(cx: &mut Ctx) {
                     }
                 }
                 // init/update/final with the same parameters
-                let mut out2 = vec![0u8; outlen];
+                let mut out2 = stale(outlen);
                 if let Some(r) = call(cx, "C07|crypto_generichash_init", "crypto_generichash_init", c, || {
                     let mut st = crypto_generichash_init(key, outlen)?;
                     crypto_generichash_update(&mut st, &input);
@@ -304,7 +304,7 @@ pub fn run(cx: &mut Ctx) {
     // out-of-range digest / key lengths are refused (libsodium refuses them as well)
     if cx.mine(0) {
         for outlen in [0usize, 1, 15, 65, 100] {
-            let mut out = vec![0u8; outlen];
+            let mut out = stale(outlen);
             let r = call(cx, "C07|crypto_generichash", "crypto_generichash", || json!({"outlen":outlen}), || crypto_generichash(&mut out, b"x", None));
             if let Some(r) = r {
                 let na_ok = na::generichash(outlen, b"x", None).is_some();
@@ -316,7 +316,7 @@ pub fn run(cx: &mut Ctx) {
         }
         for keylen in [1usize, 15, 65, 128] {
             let key = vec![7u8; keylen];
-            let mut out = vec![0u8; 32];
+            let mut out = stale(32);
             if let Some(r) = call(cx, "C07|crypto_generichash", "crypto_generichash", || json!({"keylen":keylen}), || crypto_generichash(&mut out, b"x", Some(&key))) {
                 if keylen > 64 {
                     expect(cx, "C07|crypto_generichash|accepts_invalid_keylen", r.is_err(), || json!({"keylen":keylen}));
@@ -342,14 +342,14 @@ pub fn run(cx: &mut Ctx) {
             let c = || json!({"op":"core","input":hx(&input),"key":hx(&key),"const": if custom {Some(hx(&cst))} else {None}});
             let want_s = na::hsalsa20(&input, &key, if custom { Some(&cst) } else { None });
             let want_c = na::hchacha20(&input, &key, if custom { Some(&cst) } else { None });
-            let mut out = [0u8; 32];
+            let mut out = stale_arr::<32>();
             if call(cx, "C07|crypto_core_hsalsa20", "crypto_core_hsalsa20", c, || crypto_core_hsalsa20(&mut out, &input, &key, if custom { Some(c_of(&cst)) } else { None })).is_some() {
                 expect_eq(cx, "C07|crypto_core_hsalsa20|mismatch_vs_libsodium", &out, &want_s, c);
             }
             if i % 50 == 0 {
                 cx.io("hsalsa20", json!({"in":hx(&input),"key":hx(&key),"const": if custom {Some(hx(&cst))} else {None},"out":hx(&out)}));
             }
-            let mut out = [0u8; 32];
+            let mut out = stale_arr::<32>();
             if call(cx, "C07|crypto_core_hchacha20", "crypto_core_hchacha20", c, || crypto_core_hchacha20(&mut out, &input, &key, if custom { Some(c_of(&cst)) } else { None })).is_some() {
                 expect_eq(cx, "C07|crypto_core_hchacha20|mismatch_vs_libsodium", &out, &want_c, c);
             }
@@ -421,7 +421,7 @@ pub fn run(cx: &mut Ctx) {
 
 fn poly_case(cx: &mut Ctx, rng: &mut crate::prng::Rng, input: &[u8], key: &[u8; 32], family: &str, all_flips: bool) {
     let want = na::onetimeauth(input, key);
-    let mut out = [0u8; 16];
+    let mut out = stale_arr::<16>();
     let c = || json!({"op":"crypto_onetimeauth","family":family,"input":hx(input),"key":hx(key)});
     if call(cx, "C07|crypto_onetimeauth", "crypto_onetimeauth", c, || crypto_onetimeauth(&mut out, input, key)).is_some() {
         expect_eq(cx, "C07|crypto_onetimeauth|mismatch_vs_libsodium", &out, &want, c);
